@@ -108,6 +108,21 @@ def surfPlane (o a b : V3) (u v : Rat) : V3 := o + V3.smul u a + V3.smul v b
 def surfBilinear (p00 p10 p01 p11 : V3) (u v : Rat) : V3 :=
   V3.smul ((1 - u) * (1 - v)) p00 + V3.smul (u * (1 - v)) p10 + V3.smul ((1 - u) * v) p01 + V3.smul (u * v) p11
 
+/-! ### `ClampBase.update_params`: the clamp as a state -/
+
+/-- a clamp with its position function: the parameters it holds and the position it reports -/
+structure ClampSt where
+  params : List Rat
+  position : V3
+  deriving Repr
+
+/-- `update_params(params)`: `self.params = params; self.position = self.function(self.params)` — nothing else: the
+    parameters are stored as given (bounds are handed to `scipy.optimize.minimize` only, `update_params` does not clip) -/
+def ClampSt.update (f : List Rat → V3) (_ : ClampSt) (ps : List Rat) : ClampSt := ⟨ps, f ps⟩
+
+/-- a history of parameter updates -/
+def ClampSt.run (f : List Rat → V3) (c : ClampSt) (hist : List (List Rat)) : ClampSt := hist.foldl (ClampSt.update f) c
+
 /-! ### links -/
 
 structure Link where
